@@ -616,6 +616,8 @@ def render_proc(st: Style, p: Proc, scope_kind: str) -> List[Stmt]:
         decls.append(render_interface(st, it, "proc"))
     if p.kind == "function" and p.result is not None and not p.ret_on_prefix:
         decls.append(render_var(st, p.result, "proc"))
+    if p.kind == "function" and p.result is not None and p.ret_on_prefix and p.result.attrs:
+        decls.append([Stmt(st.kw(a) + (" :: " if st.dcolon() else " ") + st.nm(p.result.name)) for a in p.result.attrs])
     decls += render_vars(st, p.locals, "proc")
     # types must precede variables of that type: keep type blocks first, shuffle the rest
     ntypes = len(p.types)
@@ -784,6 +786,8 @@ def expect_proc(table, path, p: Proc, default_perm, kindname=None):
     if p.kind == "function" and p.result is not None:
         r = p.result
         d2 = r.expect() if not p.ret_on_prefix else r.ts.expect()
+        if p.ret_on_prefix:
+            d2["attribs"] = sorted(r.attrs)
         d2["kind"] = "result"
         d2["name"] = r.name.lower()
         if not p.ret_on_prefix:
